@@ -71,6 +71,10 @@ def cases(tier: str, seed: int) -> List[Dict[str, Any]]:
             for m in _pow2grid(1 / 4, 16, 1):
                 for dp in (0.0, 0.3):
                     out.append({"op": "attention", "seq": skv, "seq_q": sq, "d": d, "mult": m, "causal": False, "dropout_p": dp, "seed": seed})
+    # call history: the same (sequence, head size, mult) used causal and non-causal in ONE fresh process
+    for s_, d_ in ((256, 16), (1024, 64)):
+        for order in ([False, True, False], [True, False, True]):
+            out.append({"op": "attention_history", "seq": s_, "d": d_, "mult": 1.0, "order": order, "seed": seed, "fresh": True})
     vocabs = [2, 3, 4, 8, 16, 100, 1000, 32000] + ([5, 50, 5000] if th else [])
     for v in vocabs:
         for m in _pow2grid(1 / 8, 4, 2 if th else 1):
@@ -118,6 +122,13 @@ def run_case(case: Dict[str, Any]) -> Dict[str, Any]:
             viol.append({"key": f"{op}|{name}_out_of_range",
                          "msg": f"{ {k: v for k, v in case.items() if k != 'seed'} }: {name}={val:.4f} not in [{lo},{hi}]"})
 
+    if op == "attention_history":
+        for pos, causal in enumerate(case["order"]):
+            r = run_case({"op": "attention", "seq": case["seq"], "d": case["d"], "mult": case["mult"], "causal": causal,
+                          "dropout_p": 0.0, "seed": case["seed"]})
+            for v in r["violations"]:
+                viol.append({"key": v["key"].replace("attention|", "attention_history|") + f"|call={pos}", "msg": v["msg"] + f" (call #{pos} of {case['order']})"})
+        return {"violations": viol[:3], "steps": len(case["order"]), "outcome": "attention_history:" + ("ok" if not viol else "bad")}
     if op in ("gelu_none", "gelu_tanh", "silu"):
         x, w = _gh(200)
         x = x.clone().requires_grad_(True)
